@@ -221,6 +221,10 @@ def run(ctx):
     for (c, n, detail) in drops:
         if n is None:
             ctx.fail("R4.4", "propagate:%s:unreached" % c.name, c.loc(), detail)
+    # the end-of-trace test looks at every thread of the system (global list, global link)
+    from rules import listlinks
+    listlinks.check(ctx, "R4.4", lambda file, name: name == "model_ovni_finish", minimum=1)
+
 
 
 def _stname(names, prog, v):
